@@ -134,8 +134,10 @@ def stats(skel):
 
 
 # ---------------------------------------------------------------- stress
-def run_stress(binary, jobs, timeout=900):
+def run_stress(binary, jobs, timeout=3600, watchdog_ms=None):
     env = dict(os.environ, GORACE="halt_on_error=0 exitcode=66")
+    if watchdog_ms:
+        env["DRV_WATCHDOG_MS"] = str(watchdog_ms)
     p = subprocess.run([binary], input=json.dumps(jobs).encode(), stdout=subprocess.PIPE, stderr=subprocess.PIPE, timeout=timeout, env=env)
     err = p.stderr.decode(errors="replace")
     races = err.count("WARNING: DATA RACE")
@@ -207,6 +209,7 @@ def check(ctx, only=None):
         shared_stats["generated_files"] = len(sfiles)
     # (2) oracle
     results, races, rerr = [], 0, ""
+    tstats = {"timeouts_first_stage": 0, "timeouts_retried": 0, "timeouts_confirmed": 0, "timeouts_not_confirmed": 0, "timeouts_confirmed_by_class": 0}
     jobs = jobs_for(pkgs, ctx.rng, ctx.thorough())
     if binary is None:
         problems.append(err)
@@ -215,6 +218,28 @@ def check(ctx, only=None):
         if results is None:
             problems.append("drv_conc crashed (exit %d): %s" % (rc, rerr[-2000:]))
             results = []
+        # a watchdog timeout of the main run is only a first-stage verdict (the machine may be overloaded): the job is
+        # re-run ALONE in a fresh process with a 60 s watchdog and its result replaces the first one; at most 3
+        # confirmations per run (a real deadlock costs the whole watchdog), further ones count as confirmed by class
+        for i, r in enumerate(results):
+            if not r.get("timeouts"):
+                continue
+            tstats["timeouts_first_stage"] += 1
+            if tstats["timeouts_confirmed"] >= 3:
+                tstats["timeouts_confirmed_by_class"] += 1
+                continue
+            tstats["timeouts_retried"] += 1
+            r2, races2, rerr2, rc2 = run_stress(binary, [jobs[i]], watchdog_ms=60000)
+            if not r2:
+                problems.append("drv_conc crashed while re-running %s alone (exit %d): %s" % (r["mock"], rc2, rerr2[-1500:]))
+                continue
+            results[i] = r2[0]
+            races += races2
+            rerr += rerr2
+            if r2[0].get("timeouts"):
+                tstats["timeouts_confirmed"] += 1
+            else:
+                tstats["timeouts_not_confirmed"] += 1
     bad = [r for r in results if r["errors"]]
     spec = {"packages": pkgs}
     if races or bad:
@@ -246,7 +271,8 @@ def check(ctx, only=None):
                        "evaluations = concurrent mock calls executed under the race detector + generated method paths checked by the kernel; "
                        "distinct non-trivial = mocks (distinct generated interfaces/option sets) that were called from >= 8 goroutines",
                        [{"mock": r["mock"], "calls": r["calls"], "records_checked": r["records"], "snapshots": r["snapshots"], "resets": r["resets"]} for r in results[:4]],
-                       extra={"translation": st, "translation_shared_generator": shared_stats, "generated_ok": tie_ok, "generated_shared_ok": shared_ok,
+                       extra={"timeouts_retried": tstats["timeouts_retried"], "timeouts_confirmed": tstats["timeouts_confirmed"], "timeouts": tstats,
+                              "translation": st, "translation_shared_generator": shared_stats, "generated_ok": tie_ok, "generated_shared_ok": shared_ok,
                               "race_reports": races, "mocks_with_errors": len(bad),
                               "stress": {"mocks": len(results), "calls": total_calls, "records_checked": sum(r["records"] for r in results),
                                          "snapshots": sum(r["snapshots"] for r in results), "concurrent_resets": sum(r["resets"] for r in results),
